@@ -427,7 +427,7 @@ class World:
                         rel = "parent-of-target"
         algebra = k in ("binop", "unop", "eval", "copy")
         if not algebra and k in ("bc_edit", "bc_util", "bc_periodic", "val_edit",
-                                 "scribble", "view_write"):
+                                 "scribble", "view_write", "bc_scale"):
             # an edit leaked into another object: who made them alias?
             how = self._alias_origin(ctx, e)
             if how == "copy":
@@ -962,6 +962,66 @@ class World:
         if A.SIDE_AXIS[a["side"]] == 2 and bool(a["on"]):
             self.probes["periodic:z-axis-on"] += 1
         self._mark_bc_edit(bent, "periodic", ctx)
+
+    def op_bc_scale(self, a, op, ctx):
+        """C03: multiplying (a, b, c) of a side by any non-zero factor (here a
+        scalar or a per-face array, either sign) changes nothing in the solution
+        nor in the reported boundary values."""
+        bent, face = self._bc_face(a)
+        shape = np.asarray(face.c).shape
+        k = self._val(a["k"], shape)
+        if a.get("neg"):
+            k = -k
+        if np.any(np.asarray(k) == 0) or not np.all(np.isfinite(k)):
+            raise Skip("zero factor")
+        ment = self.get(bent.meta["mesh"], "m")
+        cls, faces = self.mesh_model(ment)
+        judge = "I4" in self.inv and not O.bc_degenerate(cls, faces, bent.meta["state"]) \
+            and not O.radial_periodic(cls, bent.meta["state"])
+        before = []
+        if judge:
+            for s in self.sharers(bent.name)[:2]:
+                ve = self.ents[s]
+                if ve.meta.get("noprecalc") or not np.all(np.isfinite(ve.meta["val"])):
+                    continue
+                tw, _ = self.twin_of(ve)
+                if tw is None:
+                    continue
+                try:
+                    terms = self.shadow_terms(tw, ment.obj)
+                    sh = copy.deepcopy(ve.obj)
+                    self.pf.solvePDE(sh, terms)
+                    self.pf.solvePDE(tw, terms)
+                    before.append((s, terms, np.array(A.full_array(tw), copy=True),
+                                   np.array(A.full_array(sh), copy=True)))
+                except Exception:
+                    continue
+        for coef in "abc":
+            setattr(face, coef, np.asarray(getattr(face, coef), dtype=float) * k)
+        self._mark_bc_edit(bent, "scale3", ctx)
+        self.probes["edit:scale3" + (":negative" if np.any(np.asarray(k) < 0) else "")] += 1
+        if not judge:
+            return
+        st_new = A.read_bc(bent.obj)
+        for s, terms, x_tw, x_sh in before:
+            ve = self.ents[s]
+            self.oracle_runs["I4-scale"] += 1
+            try:
+                tw2 = O.build_twin(self.pf, ment.obj, st_new, ve.meta["val"])
+                self.pf.solvePDE(tw2, terms)
+                sh2 = copy.deepcopy(ve.obj)
+                self.pf.solvePDE(sh2, terms)
+            except Exception as ex:
+                self.flag("C03", "I4", "%s/scale3/raises" % cls, {"var": s, "exc": repr(ex)})
+                return
+            if not same(A.full_array(tw2), x_tw, 1e-9):
+                self.flag("C03", "I4", "%s/scale3/fresh-solution-changed" % cls,
+                          {"var": s, "maxdiff": maxdiff(A.full_array(tw2), x_tw)})
+                return
+            if not same(A.full_array(sh2), x_sh, 1e-9):
+                self.flag("C03", "I4", "%s/scale3/solution-changed" % cls,
+                          {"var": s, "maxdiff": maxdiff(A.full_array(sh2), x_sh)})
+                return
 
     def op_view_take(self, a, op, ctx):
         bent, face = self._bc_face(a)
